@@ -589,6 +589,13 @@ def rand_quals_step(r, sep=":"):
 def st_quals(ctx, n, label="quals", maxsteps=8, documented_panics=False):
     r = ctx.rng(label)
     out = []
+    # many keys (a cap on the number of qualifiers, a small-size optimisation with a different code path beyond N): 100
+    # distinct keys inserted in three orders, then lookups, removals from the middle, and the comparison with a fresh copy
+    for order in (lambda ks: ks, lambda ks: list(reversed(ks)), lambda ks: ks[1::2] + ks[0::2]):
+        ks = order(["k%03d" % i for i in range(100)])
+        steps = ["ins:%s:%s" % (hx(k_), hx(k_[1:])) for k_ in ks] + ["len", "get:" + hx("K050"), "rm:" + hx("k049"), "rm:" + hx("k000"), "rm:" + hx("k099"), "len",
+                                                                   "ent:%s:oi:%s" % (hx("k050x"), hx("v")), "eqf", "retlt:" + hx("k020"), "len", "iter", "eqf"]
+        out.append(case("quals " + ";".join(steps), "quals-many"))
     for _ in range(n):
         steps = [rand_quals_step(r) for _ in range(1 + r.below(maxsteps))]
         if r.chance(1, 4):
@@ -831,7 +838,8 @@ def st_comb(ctx, n, label="comb"):
             for tup in itertools.product(["a", "/", ":", "@"], repeat=k):
                 out.append(case("comb %s %s" % (ident, hx("".join(tup))), "comb-exhaustive", ident=ident, s="".join(tup)))
     realistic = ["github.com/go-chi/chi/v5", "x/v2", "v2", "a/v10", "a/v1", "a/v02", "a/v2x", "@angular/cli", "@types/node/extra", "org.apache:commons",
-                 ":artifact", "g:g:a", "a/", "/a", "a:", "golang.org/x/text", "k8s.io/api/core/v1", "gopkg.in/yaml.v3"] + ECO_NAMES \
+                 ":artifact", "g:g:a", "a/", "/a", "a:", "golang.org/x/text", "k8s.io/api/core/v1", "gopkg.in/yaml.v3",
+                 "a\uff0fb", "g\uff1aa", "a\u2215b", "a\u2044b", "a\\b", "a\\b/c", "g\ua789a", "a/b\uff0fc", "g:a\uff1ab", "a%2Fb", "g%3Aa", "a//b", "g::a", " a/b ", "a /b"] + ECO_NAMES \
         + ["ns/" + x for x in ECO_NAMES[:12]] + ["g:" + x for x in ECO_NAMES[:12]]
     for ident in IDENTS:
         for s in realistic:
@@ -936,6 +944,7 @@ def cksum_texts(ctx):
     for perm in itertools.permutations(["sha256", "sha512", "md5", "b"]):
         for rep in (perm[0], perm[1].upper()):
             out.append(",".join("%s:%02x" % (x, 17 * i) for i, x in enumerate(list(perm) + [rep])))
+    out += ["sha512:" + "ab" * n_ for n_ in (20, 32, 64, 65, 128, 129, 256)] + ["sha1:" + "AB" * 64 + ",md5:" + "0f" * 16]
     out += ["sha1:+aFF", "sha1:0x1F", "sha1:0x", "sha1:0X1f", "sha256:0xdeadbeef", "md5:00ff,sha1:0XAB", "sha1:1e", "sha1:١٢", "sha1:ａｂ", "a:00,b", "a:00,,b:11", "a::00", ":00", "a:", ","]
     if ctx.tier == "thorough":
         for seq in itertools.product(algs + ["A"], repeat=4):
@@ -988,6 +997,17 @@ def st_cmp(ctx, n, shapes, label="cmp"):
             sh = shapes[len(v_) % len(shapes)]
             if not (sh == "P" and ty_ == "t"):
                 out.append(case("cmp %s p/%s p/%s" % (sh, hx("pkg:%s/ns/n@%s" % (ty_, urllib.parse.quote(v_, safe=""))), hx("pkg:%s/ns/n" % ty_)), "cmp-default"))
+    # values that a normalisation form, a case folding or a filter of invisible characters would identify: different
+    # strings, so different PURLs (in every component)
+    twins = [("e\u0301", "\u00e9"), ("\ufb01", "fi"), ("\uff21", "A"), ("\u212a", "K"), ("\u00df", "ss"), ("\u0130", "i\u0307"), ("\u1100\u1161", "\uac00"),
+             ("a\u200bb", "ab"), (" a", "a"), ("a\u00adb", "ab"), ("\u212b", "\u00c5"), ("a", "\u0430"), ("A", "a"), ("\u03c3", "\u03c2"), ("a\u0000", "a")]
+    for x_, y_ in twins:
+        q_ = lambda t: urllib.parse.quote(t, safe="")
+        for tpl in ("pkg:t/ns/n%s@1", "pkg:t/ns%s/n@1", "pkg:t/ns/n@1%s", "pkg:t/ns/n@1?k=%s", "pkg:t/ns/n@1#s%s"):
+            sh = shapes[len(x_) % len(shapes)]
+            if sh == "P":
+                tpl = tpl.replace("pkg:t/", "pkg:cargo/")
+            out.append(case("cmp %s p/%s p/%s" % (sh, hx(tpl % q_(x_)), hx(tpl % q_(y_))), "cmp-twins"))
     n += len(out)
     while len(out) < n:
         sh = r.pick(shapes)
